@@ -1,7 +1,7 @@
 INIT Init
 NEXT Next
 CONSTANTS
-  Users <- U3
+  Users <- U2
   NQ = 2
   InitCaps = {1, 2}
   Caps = {1, 2}
